@@ -189,9 +189,9 @@ theorem interpNull_ok {dt : DataType} {n : Bool} {md : Metadata} {v : LVal} (h :
 `collect` of gathering the candidates of a field that the field loop `pf` implements (`hcol`). -/
 theorem record_phys {un : Bytes → String} {p len v fs cached next seen} {pf : SS → R SS} {b' : B} {sfs : Fields} {lv : LVal}
     (collect : Field → R (List LVal))
-    (hwf : WFB (.struct p len v fs cached next seen)) (hsafe : Safe (.struct p len v fs cached next seen))
-    (hshape : ShapeL fs sfs) (hpf : FieldsOK pf)
-    (hcol : ∀ s1 s2, s1.next = 0 → s1.fields = fs → Mid fs s1 (List.replicate fs.length []) → pf s1 = .ok s2 →
+    (hwf : WFH (.struct p len v fs cached next seen)) (hsafe : NoDictKey (.struct p len v fs cached next seen))
+    (hshape : ShapeL fs sfs) (hpf : FieldsOKH pf)
+    (hcol : ∀ s1 s2, s1.next = 0 → s1.fields = fs → MidH fs s1 (List.replicate fs.length []) → pf s1 = .ok s2 →
       ∀ j f found, sfs.toList[j]? = some f → collect f = .ok found → ChildRel un s1 s2 j found)
     (h : (do
       let s ← SS.start ⟨p, len, v, fs, cached, next, seen⟩
@@ -205,17 +205,17 @@ theorem record_phys {un : Bytes → String} {p len v fs cached next seen} {pf : 
   obtain ⟨s3, h3, h⟩ := (bind_ok _ _ _).1 h
   cases h
   have hw' := hwf
-  simp only [WFB] at hw'
+  simp only [WFH] at hw'
   obtain ⟨hv, hwfl, hseen, hnd, hcache⟩ := hw'
-  simp only [Safe] at hsafe
+  simp only [NoDictKey] at hsafe
   simp only [SS.start] at h1
   obtain ⟨v', hv1, h1⟩ := (bind_ok _ _ _).1 h1
   cases h1
   have hv' := setValidity_setV hv1
   subst hv'
-  have hmid : Mid fs ⟨p, len + 1, setV v len true, fs, cached, 0, List.replicate seen.length false⟩
+  have hmid : MidH fs ⟨p, len + 1, setV v len true, fs, cached, 0, List.replicate seen.length false⟩
       (List.replicate fs.length []) :=
-    ⟨ExtL.refl fs len hwfl, by rw [hseen]; exact Flags.fresh _, hcache, hsafe.1, hnd⟩
+    ⟨by simpa using ExtLH.refl fs len hwfl, by rw [hseen]; exact Flags.fresh _, hcache, hsafe, hnd⟩
   obtain ⟨⟨adds2, hm2⟩, hp, hl, hvv⟩ := hpf _ _ _ _ hmid h2
   simp only at hp hl hvv
   have hrel := hcol _ s2 rfl rfl hmid h2
